@@ -32,28 +32,15 @@ var shims = map[string]string{
 	"io/ioutil":     "verif/sim/simioutil",
 }
 
-// Imports known to perform no I/O and no synchronisation that could escape the
-// simulator (or to be harmless process-local facilities).
-var allowed = map[string]bool{
-	"bufio": true, "bytes": true, "errors": true, "flag": true, "fmt": true, "io": true, "math": true,
-	"runtime": true, "runtime/debug": true, "slices": true, "strings": true, "strconv": true, "testing": true,
-	"go/ast": true, "go/token": true, "path": true, "regexp": true, "encoding/json": true, "sort": true,
-	"unicode": true, "unicode/utf8": true, "maps": true, "cmp": true, "reflect": true, "io/fs": true,
-	"math/bits": true, "encoding/base64": true, "encoding/hex": true, "hash/fnv": true, "text/tabwriter": true,
-	"unsafe": true, "container/list": true, "container/heap": true, "sync/atomic": true, "iter": true,
-	"html": true, "unicode/utf16": true, "hash/crc32": true, "crypto/sha256": true, "crypto/md5": true, "crypto/sha1": true,
-	"context": true, "encoding/binary": true, "math/big": true, "text/template": true, "go/format": true, "go/printer": true,
+// Imports through which go-snaps code could reach the outside world behind the
+// simulator's back (processes, sockets, raw system calls). Everything else of the
+// standard library is either shimmed above or does no I/O and no blocking of its own.
+var denied = map[string]bool{
+	"os/exec": true, "net": true, "net/http": true, "syscall": true, "os/signal": true, "plugin": true,
+	"golang.org/x/sys/unix": true, "database/sql": true, "net/rpc": true, "os/user": true, "C": true,
 }
 
-func allowedImport(p string) bool {
-	if allowed[p] {
-		return true
-	}
-	if strings.HasPrefix(p, "github.com/") || strings.HasPrefix(p, "golang.org/x/") || strings.HasPrefix(p, "gopkg.in/") {
-		return true // third-party / module-internal packages: real code, not part of the seams
-	}
-	return false
-}
+func allowedImport(p string) bool { return !denied[p] }
 
 type Result struct {
 	Dir      string            // scratch directory holding everything
@@ -74,38 +61,55 @@ func errf(f string, a ...any) error { return &Error{fmt.Sprintf(f, a...)} }
 func Build(repo, verifDir, scratch string, race bool) (*Result, error) {
 	res := &Result{Dir: scratch, Sources: map[string][]byte{}}
 	pkgDir := filepath.Join(repo, "snaps")
-	entries, err := os.ReadDir(pkgDir)
-	if err != nil {
-		return nil, errf("read %s: %v", pkgDir, err)
-	}
 	overlay := map[string]string{}
 	srcDir := filepath.Join(scratch, "src")
 	if err := os.MkdirAll(srcDir, 0o755); err != nil {
 		return nil, errf("%v", err)
 	}
-	for _, e := range entries {
-		name := e.Name()
-		if e.IsDir() || !strings.HasSuffix(name, ".go") {
-			continue
-		}
-		full := filepath.Join(pkgDir, name)
-		if strings.HasSuffix(name, "_test.go") {
-			overlay[full] = "" // in-package tests take *os.File etc.; not needed
-			continue
-		}
-		out, n, err := rewriteFile(full)
+	// every non-test Go file of the module that imports a shimmed package is rewritten
+	// (not only package snaps: file handling may be moved into an internal package)
+	nfile := 0
+	werr := filepath.WalkDir(repo, func(path string, d os.DirEntry, err error) error {
 		if err != nil {
-			return nil, err
+			return err
+		}
+		name := d.Name()
+		if d.IsDir() {
+			if path != repo && (strings.HasPrefix(name, ".") || name == "testdata" || name == "examples" || name == "vendor" || name == "__snapshots__") {
+				return filepath.SkipDir
+			}
+			return nil
+		}
+		if !strings.HasSuffix(name, ".go") {
+			return nil
+		}
+		if strings.HasSuffix(name, "_test.go") {
+			if filepath.Dir(path) == pkgDir {
+				overlay[path] = "" // in-package tests take *os.File etc.; not needed
+			}
+			return nil
+		}
+		out, n, err := rewriteFile(path)
+		if err != nil {
+			return err
 		}
 		if n == 0 {
-			continue
+			return nil
 		}
 		res.Rewrites += n
-		dst := filepath.Join(srcDir, name)
+		nfile++
+		dst := filepath.Join(srcDir, fmt.Sprintf("%03d_%s", nfile, name))
 		if err := os.WriteFile(dst, out, 0o644); err != nil {
-			return nil, errf("%v", err)
+			return errf("%v", err)
 		}
-		overlay[full] = dst
+		overlay[path] = dst
+		return nil
+	})
+	if werr != nil {
+		if be, ok := werr.(*Error); ok {
+			return nil, be
+		}
+		return nil, errf("walk %s: %v", repo, werr)
 	}
 	// harness
 	mainSrc, err := os.ReadFile(filepath.Join(verifDir, "harness", "main_test.go.in"))
